@@ -125,13 +125,61 @@ func parseBudgets(spec string) error {
 	return nil
 }
 
-func exploreOpts(deadline time.Time) vs.Options {
-	return vs.Options{
+func exploreOpts(cfg *Config, deadline time.Time) vs.Options {
+	o := vs.Options{
 		Budgets:  budgets,
 		Prune:    true,
 		Deadline: deadline,
 		MaxSteps: 20000,
 	}
+	if cfg != nil && cfg.Backlog > 0 {
+		// long-backlog family: iterative deviation bounding (0 deviations, then <= Bound), sharded
+		o.Budgets = []vs.Budget{{P: 0, E: 0}}
+		if cfg.Bound > 0 {
+			o.Budgets = append(o.Budgets, vs.Budget{P: cfg.Bound, E: 0})
+		}
+		o.DeviationBounded = true
+		// history-hash pruning is off for this family: every select / map-order decision is part of a
+		// history, so two different schedules never reach equal keys here (measured with pruning on:
+		// 0 revisits, 0 look-ahead skips for N = 1100, 1500, 5000) and the visited table would only
+		// cost memory (about 1 GB per shard at N = 5000). Stats.ChoicePoints counts the expanded states.
+		o.Prune = false
+		o.Shard, o.NShards = cfg.Shard, cfg.NShards
+		o.MaxSteps = 60*cfg.Backlog + 5000
+		o.Samples = 1
+	}
+	return o
+}
+
+// Long-backlog family (seed C15-5: a bounded backlog wedges the bus loop once a stalled subscriber
+// holds that many events). backlogQuick / backlogThorough are the N of the tiers; a backlog bound
+// larger than the N explored is outside the check.
+const (
+	backlogQuick          = 1500
+	backlogQuickShards    = 16
+	backlogThorough       = 5000
+	backlogThoroughShards = 64 // memory: the visited table of a shard holds (runs x length)/shards states
+)
+
+func backlogConfigs(n int, tier string, bound, backlogShards int) []*Config {
+	evs := make([]int, n)
+	for i := range evs {
+		evs[i] = i + 1
+	}
+	var out []*Config
+	for k := 0; k < backlogShards; k++ {
+		out = append(out, &Config{
+			Name: fmt.Sprintf("backlog%d-Astall-C.shard%02d", n, k), Tier: tier,
+			Publishers: [][]int{evs}, Subs: []SubSpec{sub("A", 0), sub("C", inf)},
+			Backlog: n, Bound: bound, Shard: k, NShards: backlogShards,
+		})
+	}
+	return out
+}
+
+func init() {
+	configs = append(configs, backlogConfigs(backlogQuick, "quick", 1, backlogQuickShards)...)
+	configs = append(configs, backlogConfigs(backlogThorough, "thorough", 1, backlogThoroughShards)...)
 }
 
 func main() {
@@ -214,7 +262,7 @@ func doWorker(name string, d time.Duration) int {
 	if d > 0 {
 		dl = time.Now().Add(d)
 	}
-	st := vs.Explore(factory(cfg), exploreOpts(dl))
+	st := vs.Explore(factory(cfg), exploreOpts(cfg, dl))
 	json.NewEncoder(os.Stdout).Encode(workerOut{Config: name, Stats: st})
 	if len(st.Errors) > 0 {
 		return 2
@@ -238,7 +286,7 @@ func doReplay(path string) int {
 		fmt.Fprintf(os.Stderr, "c15: unknown configuration %q\n", rp.Config)
 		return 2
 	}
-	r := vs.RunOnce(factory(cfg), rp.Choices, exploreOpts(time.Time{}))
+	r := vs.RunOnce(factory(cfg), rp.Choices, exploreOpts(cfg, time.Time{}))
 	fmt.Printf("configuration %s, %d choices, %d transitions, status %s\n", cfg.Name, len(rp.Choices), r.Steps, r.Status)
 	for _, l := range r.Trace {
 		fmt.Println("  ", l)
@@ -266,7 +314,7 @@ func doReplay(path string) int {
 // selfTest replays one recorded schedule n times and compares the observation logs and traces.
 func selfTest(n int) error {
 	cfg := findConfig("p2-A-cloneB")
-	opts := exploreOpts(time.Time{})
+	opts := exploreOpts(cfg, time.Time{})
 	// record: sample executions of a small bounded exploration (one preemption), pruning off
 	rec := vs.Explore(factory(cfg), vs.Options{Budgets: []vs.Budget{{P: 1, E: 0}}, MaxSteps: 20000, Samples: 3, MaxViolations: 1 << 30, Deadline: time.Now().Add(20 * time.Second)})
 	if len(rec.Errors) > 0 {
@@ -392,6 +440,24 @@ func doParent(tier string, nworkers int, only string, d time.Duration, noEvid bo
 		nviol     = 0
 		replays   []string
 	)
+	type familyStats struct {
+		name                                  string
+		n, bound, shards, depth               int
+		executions, transitions, choicePoints int64
+		outcomes                              int64
+		wall                                  float64
+		exhaustive                            bool
+		budgets                               []string
+	}
+	var (
+		families        = map[string]*familyStats{}
+		famOrder        []string
+		maxBacklog      = 0
+		unboundedStates int64
+		backlogSampled  = map[int]bool{}
+		violSeen        = map[string]bool{}
+	)
+	_ = unboundedStates
 	fmt.Printf("%-28s %10s %10s %10s %12s %9s %8s %s\n", "configuration", "executions", "pruned", "states", "transitions", "outcomes", "wall_s", "exhaustive")
 	for i, wo := range results {
 		if wo == nil {
@@ -403,7 +469,38 @@ func doParent(tier string, nworkers int, only string, d time.Duration, noEvid bo
 			fmt.Fprintf(os.Stderr, "c15: MACHINERY FAILURE in %s: %s\n", wo.Config, e)
 			machinery = true
 		}
-		fmt.Printf("%-28s %10d %10d %10d %12d %9d %8.1f %v\n", wo.Config, st.Executions, st.Pruned, st.States, st.Transitions, st.DistinctOutcomes, st.WallS, st.Exhaustive)
+		cfgI := todo[i]
+		if cfgI.Backlog > 0 {
+			// shards of one long-backlog family are reported as one line / one evidence entry
+			fam := strings.SplitN(cfgI.Name, ".shard", 2)[0]
+			f := families[fam]
+			if f == nil {
+				f = &familyStats{name: fam, n: cfgI.Backlog, bound: cfgI.Bound, exhaustive: true}
+				families[fam] = f
+				famOrder = append(famOrder, fam)
+			}
+			f.shards++
+			f.executions += st.Executions
+			f.transitions += st.Transitions
+			f.choicePoints += st.ChoicePoints
+			if st.DistinctOutcomes > f.outcomes {
+				f.outcomes = st.DistinctOutcomes
+			}
+			if st.WallS > f.wall {
+				f.wall = st.WallS
+			}
+			if st.MaxChoiceDepth > f.depth {
+				f.depth = st.MaxChoiceDepth
+			}
+			f.exhaustive = f.exhaustive && st.Exhaustive
+			f.budgets = st.BudgetsCompleted
+			st.DistinctOutcomes = 0 // added once per family below (the shards' outcome sets overlap)
+			if cfgI.Backlog > maxBacklog && st.Exhaustive {
+				maxBacklog = cfgI.Backlog
+			}
+		} else {
+			fmt.Printf("%-28s %10d %10d %10d %12d %9d %8.1f %v\n", wo.Config, st.Executions, st.Pruned, st.States, st.Transitions, st.DistinctOutcomes, st.WallS, st.Exhaustive)
+		}
 		tot.Executions += st.Executions
 		tot.Pruned += st.Pruned
 		tot.Skipped += st.Skipped
@@ -418,20 +515,42 @@ func doParent(tier string, nworkers int, only string, d time.Duration, noEvid bo
 		if !st.Exhaustive {
 			exhaust = false
 		}
-		perConfig[wo.Config] = map[string]interface{}{
-			"executions": st.Executions, "pruned_revisits": st.Pruned, "states": st.States, "transitions": st.Transitions,
-			"distinct_outcomes": st.DistinctOutcomes, "exhaustive": st.Exhaustive, "budgets_completed": st.BudgetsCompleted, "wall_s": st.WallS,
+		if cfgI.Backlog == 0 {
+			unboundedStates += st.States
 		}
-		if len(samples) < 4 && len(st.Samples) > 0 {
+		if cfgI.Backlog == 0 || !st.Exhaustive {
+			perConfig[wo.Config] = map[string]interface{}{
+				"executions": st.Executions, "pruned_revisits": st.Pruned, "states": st.States, "transitions": st.Transitions,
+				"distinct_outcomes": st.DistinctOutcomes, "exhaustive": st.Exhaustive, "budgets_completed": st.BudgetsCompleted, "wall_s": st.WallS,
+			}
+		}
+		if cfgI.Backlog > 0 && len(st.Samples) > 0 && !backlogSampled[cfgI.Backlog] {
+			// one sample per family: the schedule is thousands of lines long, keep its head and tail
+			backlogSampled[cfgI.Backlog] = true
+			sm := st.Samples[len(st.Samples)-1]
+			tr := sm.Trace
+			if len(tr) > 60 {
+				tr = append(append(append([]string{}, tr[:40]...), fmt.Sprintf("... %d transitions omitted ...", len(tr)-60)), tr[len(tr)-20:]...)
+			}
+			samples = append(samples, map[string]interface{}{"config": wo.Config, "choices": fmt.Sprintf("%d choice points, all default", len(sm.Choices)), "status": sm.Status, "observation": sm.Obs, "schedule": tr})
+		} else if cfgI.Backlog == 0 && len(samples) < 4 && len(st.Samples) > 0 {
 			s := st.Samples[len(st.Samples)-1]
 			samples = append(samples, map[string]interface{}{"config": wo.Config, "choices": s.Choices, "status": s.Status, "observation": s.Obs, "schedule": s.Trace})
 		}
 		for _, v := range st.Violations {
 			cfg := todo[i]
+			if cfg.Backlog > 0 {
+				// every shard runs the canonical schedule: report a violation found there once
+				k := strings.SplitN(cfg.Name, ".shard", 2)[0] + "|" + v.Obs
+				if violSeen[k] {
+					continue
+				}
+				violSeen[k] = true
+			}
 			// every violation is replayed 5x from its choice list before it is printed
 			var first *vs.Result
 			for k := 0; k < 5; k++ {
-				r := vs.RunOnce(factory(cfg), v.Choices, exploreOpts(time.Time{}))
+				r := vs.RunOnce(factory(cfg), v.Choices, exploreOpts(cfg, time.Time{}))
 				if r.Obs != v.Obs || strings.Join(r.Violations, "\n") != strings.Join(v.Messages, "\n") {
 					fmt.Fprintf(os.Stderr, "c15: MACHINERY FAILURE: replay %d of a violation in %s diverged:\n recorded %q %v\n replayed %q %v\n", k, cfg.Name, v.Obs, v.Messages, r.Obs, r.Violations)
 					machinery = true
@@ -448,6 +567,9 @@ func doParent(tier string, nworkers int, only string, d time.Duration, noEvid bo
 			rp := Replay{Property: "C15", Config: cfg.Name, Choices: v.Choices, Ns: v.Ns, Status: v.Status, Messages: v.Messages, Obs: v.Obs, Schedule: first.Trace,
 				How: "/verif/checks/C15 replay <this file>"}
 			path := fmt.Sprintf("(not written) config=%s choices=%v", cfg.Name, v.Choices)
+			if len(v.Choices) > 200 {
+				path = fmt.Sprintf("(not written) config=%s, %d choices", cfg.Name, len(v.Choices))
+			}
 			if !noEvid {
 				p, err := evlib.WriteReplay("C15", nviol, rp)
 				if err != nil {
@@ -458,9 +580,24 @@ func doParent(tier string, nworkers int, only string, d time.Duration, noEvid bo
 			}
 			replays = append(replays, path)
 			for _, m := range v.Messages {
+				if len(m) > 400 {
+					m = m[:400] + " ..."
+				}
 				fmt.Printf("  [%s] %s\n", cfg.Name, m)
 			}
 			fmt.Printf("VIOLATION property=C15 replay=%s\n", path)
+		}
+	}
+	backlogInfo := map[string]interface{}{}
+	for _, fam := range famOrder {
+		f := families[fam]
+		fmt.Printf("%-28s %10d %10s %10s %12d %9d %8.1f %v   (%d shards, <=%d deviations, %d choice points expanded, depth %d)\n",
+			f.name, f.executions, "-", "-", f.transitions, f.outcomes, f.wall, f.exhaustive, f.shards, f.bound, f.choicePoints, f.depth)
+		tot.DistinctOutcomes += f.outcomes
+		backlogInfo[f.name] = map[string]interface{}{
+			"backlog_N": f.n, "shards": f.shards, "executions": f.executions, "transitions": f.transitions, "choice_points_expanded": f.choicePoints,
+			"max_choice_depth": f.depth, "distinct_outcomes": f.outcomes, "budgets_completed": f.budgets, "exhaustive_within_bound": f.exhaustive, "max_shard_wall_s": f.wall,
+			"bound": fmt.Sprintf("deviation bounding: every schedule that differs from the canonical run-until-blocked schedule in at most %d decision(s) (any select alternative, map-iteration rotation, or switch of goroutine)", f.bound),
 		}
 	}
 	wall := time.Since(start).Seconds()
@@ -483,7 +620,8 @@ func doParent(tier string, nworkers int, only string, d time.Duration, noEvid bo
 				Rule: "every interleaving (unbounded preemptions, select and map-iteration choices included) of the real, instrumented pubsub bus + go-lifecycle under the gosched cooperative scheduler, for each closed client configuration listed in 'configurations'; " +
 					"stateless DFS with history-hash pruning (a state whose per-goroutine histories were already expanded is not expanded again; successor states are also recognised by look-ahead before they are run). " +
 					"evaluations = complete executions on which the oracle was evaluated (every distinct end state at least once); states = expanded choice-point states; " +
-					"distinct_nontrivial = number of distinct observation logs (publisher results + per-subscriber received sequences + clone hand-out counters), summed over configurations",
+					"distinct_nontrivial = number of distinct observation logs (publisher results + per-subscriber received sequences + clone hand-out counters), summed over configurations. " +
+					"The long-backlog family (extras long_backlog_family / max_backlog_explored) is enumerated under deviation bounding instead and contributes executions and transitions but no deduplicated states",
 				Samples:         samples,
 				States:          tot.States,
 				Transitions:     tot.Transitions,
@@ -492,7 +630,9 @@ func doParent(tier string, nworkers int, only string, d time.Duration, noEvid bo
 				Extra: map[string]interface{}{
 					"configurations":             names,
 					"per_configuration":          perConfig,
-					"preemption_bound_completed": map[bool]string{true: "unbounded", false: "unbounded exploration cut by the internal deadline: see per_configuration[*].exhaustive"}[exhaust],
+					"preemption_bound_completed": map[bool]string{true: "unbounded for every small configuration; long-backlog family: all schedules with at most 1 deviation from the canonical schedule (see long_backlog_family)", false: "exploration cut by the internal deadline: see per_configuration[*].exhaustive"}[exhaust],
+					"max_backlog_explored":       maxBacklog,
+					"long_backlog_family":        backlogInfo,
 					"pruned_revisits":            tot.Pruned,
 					"skipped_by_lookahead":       tot.Skipped,
 					"deadlocks":                  tot.Deadlocks,
@@ -504,7 +644,8 @@ func doParent(tier string, nworkers int, only string, d time.Duration, noEvid bo
 			},
 			Assumptions: []string{
 				"interleaving granularity: one transition = the code between two channel/select/sync operations of one goroutine; unsynchronised shared-memory races are outside this check (supplementary -race pass)",
-				"bounded: at most 2 publishers, 3 events per publisher, 3 subscribers (incl. clones), 2 closers per configuration",
+				"bounded: at most 2 publishers, 3 events per publisher, 3 subscribers (incl. clones), 2 closers per configuration (explored with unbounded preemptions)",
+				fmt.Sprintf("long backlogs: one publisher publishing N=%d events in a row with one subscriber that never reads and one that reads everything, explored under deviation bounding (canonical schedule + every schedule with one deviating decision), not with unbounded preemptions; a backlog bound or any other behaviour that only shows with more than %d undelivered events is outside the check", maxBacklog, maxBacklog),
 				"completeness ('every event published after Subscribe returned is received') is demanded only from subscribers that nobody closes (neither they, nor the subscriber they were cloned from, nor the bus) - 'until it closed' in the statement",
 				"map iteration over b.subscriptions: all rotations of the bucket slot order (what the go1.23 runtime can produce for <= 8 entries) are explored",
 			},
